@@ -64,6 +64,8 @@ use rs_matter::Matter;
 mod c02_gen;
 #[path = "c02_cmd.rs"]
 mod c02_cmd;
+#[path = "c02_init.rs"]
+mod c02_init;
 
 const REPLY_WAIT_MS: u64 = 1500;
 /// address of a node that does not exist: peer of the filler sessions
@@ -813,6 +815,9 @@ fn payload_start(bytes: &[u8]) -> Option<(usize, u8)> {
 }
 
 fn run_case(out: &mut Out, case: &Case) {
+    if case.kind.split_whitespace().next() == Some("init") {
+        return c02_init::run_init_case(out, case);
+    }
     out.case(case.id, &case.kind);
     let m = kv(&case.kind);
     let pw = (num(&m, "pw") as u32).to_le_bytes();
